@@ -1190,8 +1190,11 @@ MANIFEST = {
                   "every run (hand-written XMI/JSON documents, also with sofas whose data is a byte array that is an FS of the CAS as "
                   "well, histories of <= 12 operations) inside Coq.",
     "level_note": "Trusted: Coq kernel + vm_compute; hand-written model coq/Ids.v; the harness computes the traversal order for "
-                  "tie-free scenarios, the theorems hold for every order. Premises: the document has an _InitialView sofa; ids forced "
-                  "from outside are below the generator and not a sofa id - both are needed (refuted without them, findings F1/F2).",
+                  "tie-free scenarios, the theorems hold for every order; that all view handles share both generators is carried by "
+                  "the correspondence (every operation goes through a random live handle). Remaining premises: ids set from outside "
+                  "are not a sofa's id (the open known finding fs_id_equals_sofa_id, refuted without it), and a value passed to "
+                  "create_view is not an existing sofa's id / sofaNum (caller error otherwise). The former premises about "
+                  "_InitialView and about forced ids below the generator were dropped after the repairs ba2e314 / 941f890.",
     "technique": "Coq proof (invariant over histories) on an executable Gallina model + in-Coq behavioural correspondence + direct oracle",
     "design_ref": "DESIGN.md section 5, C09",
 }
